@@ -59,6 +59,8 @@ type foScenario struct {
 	Label     string
 	// systematic exploration (profile dfs): scheduling decisions are replayed from Choices, then always the first enabled
 	// goroutine is taken; Taken records (choice, number of alternatives) per decision for the backtracking driver
+	Collide               bool // keys 1 and 2 are an xxhash64 collision (the frontend must keep them apart: C09)
+	WrapErrs              bool // the backend in front of the real one wraps its Read errors with %w (a decorating backend)
 	LateReads, LateWrites bool // backend answers are held back: effect and answer are separate scheduling points
 	DFS                   bool
 	Choices               []int
@@ -108,10 +110,30 @@ func (sc foScenario) describe() map[string]interface{} {
 	}
 	sort.Ints(fs)
 	return map[string]interface{}{"config": sc.Cfg.String(), "keys": strings.Join(ks, " "), "gets": strings.Join(ts, " "),
-		"builder_script": strings.Join(bs, ","), "backend_faults_at_callout": fs, "schedule_seed": sc.SchedSeed, "label": sc.Label, "dfs_choices": sc.Choices, "late_read_answers": sc.LateReads, "late_write_answers": sc.LateWrites}
+		"builder_script": strings.Join(bs, ","), "backend_faults_at_callout": fs, "schedule_seed": sc.SchedSeed, "label": sc.Label, "dfs_choices": sc.Choices, "colliding_keys_1_2": sc.Collide, "backend_wraps_read_errors": sc.WrapErrs, "late_read_answers": sc.LateReads, "late_write_answers": sc.LateWrites}
 }
 
-func foKeyBytes(k int) []byte { return []byte(fmt.Sprintf("fo-key-%d", k)) }
+// foCollide: keys 1 and 2 of the running scenario are a constructed xxhash64 collision (64-byte keys); set per scenario
+// (the engine runs one scenario at a time).
+var foCollide [][]byte
+
+func foKeyBytes(k int) []byte {
+	if foCollide != nil && k >= 1 && k <= len(foCollide) {
+		return append([]byte(nil), foCollide[k-1]...)
+	}
+	return []byte(fmt.Sprintf("fo-key-%d", k))
+}
+
+func foKid(key []byte) int {
+	for i, c := range foCollide {
+		if string(c) == string(key) {
+			return i + 1
+		}
+	}
+	var k int
+	fmt.Sscanf(string(key), "fo-key-%d", &k)
+	return k
+}
 
 type foViolation struct {
 	prop, kind, sig, detail string
@@ -123,6 +145,15 @@ var lastLoneResult *getResult
 var lastCorr *foViolation // the model/implementation disagreement of the last scenario, if any
 
 func runFoScenario(d *Driver, id string, sc foScenario, res *Result) (trace []string, viol *foViolation) {
+	foCollide = nil
+	if sc.Collide {
+		crng := rand.New(rand.NewSource(sc.SchedSeed + 17))
+		k1 := make([]byte, 64)
+		crng.Read(k1)
+		copy(k1, "fo-collide-")
+		foCollide = [][]byte{k1, CollidingTwin(k1, crng)}
+	}
+	defer func() { foCollide = nil }()
 	lastLoneResult = nil
 	lastCorr = nil
 	ctx := context.Background()
@@ -130,7 +161,7 @@ func runFoScenario(d *Driver, id string, sc foScenario, res *Result) (trace []st
 	keys := NewKeyTable()
 	stats := NewStats()
 	inner := NewBackend(BCfg{Kind: sc.Cfg.Backend, TTL: time.Hour, Jitter: Rat{-1, 1, -1}, Name: "fo-backend"}, keys)
-	frw := &faultyRW{s: s, inner: inner}
+	frw := &faultyRW{s: s, inner: inner, wrapErrs: sc.WrapErrs}
 	var fe frontend
 	name := "fo"
 	if sc.Cfg.Variant == "F" {
@@ -210,11 +241,7 @@ func runFoScenario(d *Driver, id string, sc foScenario, res *Result) (trace []st
 	failedAt := map[int]bool{}     // a build for the key failed with the failure cache on
 	cancels := make([]func(), n)
 
-	kidOf := func(key []byte) int {
-		var k int
-		fmt.Sscanf(string(key), "fo-key-%d", &k)
-		return k
-	}
+	kidOf := foKid
 	summary := func() string {
 		s.mu.Lock()
 		defer s.mu.Unlock()
@@ -363,8 +390,8 @@ func runFoScenario(d *Driver, id string, sc foScenario, res *Result) (trace []st
 		}
 		for _, co := range newBuilds {
 			k := kidOf(co.key)
-			if sc.Threads[co.tid].Skip || faulty {
-				continue
+			if sc.Threads[co.tid].Skip || faulty || sc.Collide {
+				continue // (colliding keys evict each other's entry from the shared slot: a collision may cost a miss)
 			}
 			if sc.Cfg.SR && freshBuilt[k] {
 				if v := emit(&foViolation{"C05", "monitor", "fo:redundant-build", fmt.Sprintf("after %s: SyncRead is on and a build for k%d already succeeded (result still fresh), yet goroutine %d invokes the builder again", step, k, co.tid), nil}); v != nil {
@@ -808,7 +835,7 @@ func genFoCfg(rng *rand.Rand, idx int) foCfg {
 		c.Backend = "shardedOf"
 	}
 	c.SU, c.SR, c.FH = rng.Intn(2) == 0, rng.Intn(2) == 0, rng.Intn(3) == 0
-	c.MS = []time.Duration{0, time.Hour}[rng.Intn(2)]
+	c.MS = []time.Duration{0, time.Hour, 0, time.Hour, -time.Second}[rng.Intn(5)] // negative: nothing expired is fresh enough
 	c.FUT = []time.Duration{0, -1, time.Hour}[rng.Intn(3)]
 	c.UT = []time.Duration{0, time.Minute, 10 * time.Second}[rng.Intn(3)]
 	return c
@@ -868,6 +895,18 @@ func genFoScenario(profile string, seed int64, idx int, tier string) foScenario 
 	}
 	if profile == "c05" {
 		sc.Cfg.SR = true
+	}
+	if nKeys >= 2 && rng.Intn(5) == 0 {
+		// colliding keys share a slot of the failure cache too (a collision may cost a miss there, which the machine does not
+		// model): such scenarios run with the failure cache off
+		sc.Collide = true
+		sc.Cfg.FUT = -1
+		for i := range sc.Keys {
+			sc.Keys[i].CachedErr = 0
+		}
+	}
+	if rng.Intn(5) == 0 {
+		sc.WrapErrs = true
 	}
 	switch rng.Intn(6) {
 	case 0, 1:
